@@ -40,6 +40,10 @@ def mine(pid, fail):
         # reports must be what the specification says the request was built from
         return "expected" in fail and "got" in fail and fail["expected"].get("o") != fail["got"].get("o") \
             and fail["got"].get("out") == "ok"
+    if pid == "C09":
+        # the type a unified node reports is the one its kind prescribes (given at construction, or fixed)
+        return "expected" in fail and "got" in fail and fail["got"].get("out") == "ok" \
+            and (fail["expected"].get("o") or {}).get("ty") != (fail["got"].get("o") or {}).get("ty")
     if pid == "C13":
         return op == "init" or expected_cls == "const"
     if op == "init":
@@ -106,6 +110,10 @@ def jobs_for(pid, tier):
         c1 = dict(jobs_for("C01", tier))
         c4 = dict(jobs_for("C04", tier))
         J += [("xfer", c1["xfer"]), ("compound", c1["compound"]), ("sequences", c1["sequences"]), ("names", c4["names"]), ("atoms", c4["atoms"])]
+    elif pid == "C09":
+        c1 = dict(jobs_for("C01", tier))
+        c4 = dict(jobs_for("C04", tier))
+        J += [("xfer", c1["xfer"]), ("compound", c1["compound"]), ("atoms", c4["atoms"])]
     elif pid == "C11":
         J.append(("splits", base_consts(["get_qualified"], 3 if q else 4, types=(12,), quals=(0, 1, 2, 3, 4, 5, 6, 7),
                                         prelude="PreludeClass")))
@@ -130,6 +138,8 @@ RECORD_OPS = {
                        "mk_class", "get_transfer", "get_transfer_from_linkage", "get_transfer_from_convention"],
     "C11": ["get_qualified", "get_pointer", "get_reference", "mk_class", "get_product", "get_function",
             "get_array"],
+    "C09": TYPE_OPS + ["get_symbol", "get_label", "get_this", "get_literal", "make_literal", "get_identifier", "mk_class",
+                       "get_template_id", "mk_expr_list"],
     "C13": ["get_identifier", "get_as_type_id", "get_label", "get_linkage", "get_decltype", "get_symbol",
             "get_this", "get_calling_convention", "get_transfer", "get_literal"],
 }
@@ -144,8 +154,24 @@ FOCUSED = {
                                 "get_function_e", "get_product", "get_sum", "get_pointer", "mk_phantom"])],
     "C04": [("atoms-grid", 4, "a|b|int|default|x1|this", ["get_symbol", "get_literal", "make_literal", "get_template_id", "get_identifier", "mk_expr_list",
                                "get_this", "get_label", "get_suffix", "get_conversion", "get_pointer", "mk_phantom"])],
+    "C09": [("symbol-grid", 3, "a|b|this", ["get_symbol", "get_symbol", "get_label", "get_this", "get_identifier", "get_pointer",
+                                            "get_literal", "mk_class"])],
     "C11": [("qual-grid", 3, None, ["get_qualified", "get_qualified", "get_pointer", "mk_class"])],
 }
+
+
+def type_changed(ev, prefix):
+    """Attribution only (TLC has already rejected the line): does this line report, for an entity seen earlier in the same
+    execution, another type than it reported then?"""
+    r, ty = ev.get("r"), (ev.get("o") or {}).get("ty")
+    for ln in prefix[:-1]:
+        try:
+            e = json.loads(ln)
+        except ValueError:
+            continue
+        if e.get("r") == r and "o" in e and e.get("out", "ok") == "ok":
+            return (e["o"] or {}).get("ty") != ty
+    return False
 
 
 def is_start(ev):
@@ -171,7 +197,7 @@ def run(pid, tier, seed):
                                         properties=["StableMC"], workers=4, timeout=1500 if not q else 600,
                                         heap="6g")
 
-    trace_dir = os.path.join(vlib.BUILD, "traces")
+    trace_dir = vlib.trace_dir()
     os.makedirs(trace_dir, exist_ok=True)
     tr_specs = []
     nruns, length = (6, 120) if q else (30, 250)
@@ -254,6 +280,7 @@ def run(pid, tier, seed):
                 or (pid == "C01" and ev.get("op") in TYPE_OPS) \
                 or (pid == "C04" and ev.get("op") in NAME_OPS) \
                 or (pid == "C02" and ev.get("op") in TYPE_OPS + NAME_OPS) \
+                or (pid == "C09" and type_changed(ev, prefix)) \
                 or ev.get("op") in ("mk_class", "mk_phantom", "mk_expr_list", "mk_template", "get_decltype", "get_auto")
             if not ok_mine:
                 foreign += 1
